@@ -178,7 +178,7 @@ class RPCInterface:
         if not identifiers:
             self._raise(Faults.BAD_NAME, 'get_network_info',
                         f'identifier={identifier} is unknown to Supvisors')
-        return self.supvisors.mapper.instances[identifier].serial()
+        return self.supvisors.mapper.instances[identifiers[0]].serial()
 
     def get_all_instances_info(self) -> PayloadList:
         """ Get information about all **Supvisors** instances.
@@ -1140,7 +1140,10 @@ class RPCInterface:
             in state ``SYNCHRONIZATION`` or has no Master instance to perform the request.
         """
         self._check_from_distribution()
-        self.supvisors.fsm.on_restart()
+        try:
+            self.supvisors.fsm.on_restart()
+        except RuntimeError as exc:
+            self._raise(SupvisorsFaults.BAD_SUPVISORS_STATE.value, 'restart', str(exc))
         return True
 
     def shutdown(self) -> bool:
@@ -1152,7 +1155,10 @@ class RPCInterface:
             in state ``SYNCHRONIZATION`` or has no Master instance to perform the request.
         """
         self._check_from_distribution()
-        self.supvisors.fsm.on_shutdown()
+        try:
+            self.supvisors.fsm.on_shutdown()
+        except ValueError as exc:
+            self._raise(SupvisorsFaults.BAD_SUPVISORS_STATE.value, 'shutdown', str(exc))
         return True
 
     def end_sync(self, master: str = '') -> bool:
